@@ -64,6 +64,9 @@ func (p *ProposerConfig) UnmarshalJSON(input []byte) error {
 	if err != nil {
 		return errors.Wrap(err, "failed to decode fee recipient")
 	}
+	if len(feeRecipient) != bellatrix.ExecutionAddressLength {
+		return errors.New("incorrect length for fee recipient")
+	}
 	copy(p.FeeRecipient[:], feeRecipient)
 
 	if data.GasLimit != "" {
